@@ -335,6 +335,7 @@ def register(R):
             okb = bh is not None and bh.cls.name == 'ReadFileChunk'
             out['body_is_a_window_reader'] = (B(okb), ['C01'])
             if okb:
+                out['body_starts_with_progress_reporting_off'] = (B(bh.fields.get('_callbacks_enabled') is False), ['C09'])
                 start, size = to_int_term(bh.fields['_start_byte']), to_int_term(bh.fields['_size'])
                 total = size_val(st1, c.a_transfer_future)
                 fo = fo_of(st1, c.a_transfer_future)
@@ -384,7 +385,7 @@ def register(R):
     R.contracts[f'{UST}._submit_upload_request'].checks = single_checks
     R.contracts[f'{UST}._submit_upload_request'].param_alternatives = MGR_ALTS
     R.contracts[f'{UST}._submit_upload_request'].raises = {'Exception': lambda c: {}}
-    R.contracts[f'{UST}._submit_upload_request'].props = ('C01', 'C04', 'C10', 'C11', 'C15')
+    R.contracts[f'{UST}._submit_upload_request'].props = ('C01', 'C04', 'C09', 'C10', 'C11', 'C15')
 
     # ---------------------------------------------------------------- multipart upload
     FUTS = ListOfT(ExtT('future'), name='part_futures')
@@ -439,6 +440,8 @@ def register(R):
             cbs = cbs.val if isinstance(cbs, Opt) else cbs
             citems = st1.obj(cbs).items if isinstance(cbs, Ref) and st1.obj(cbs).kind == 'list' else None
             aggs = [x for x in (citems or []) if isinstance(x, Ref) and st1.obj(x).kind == 'obj' and st1.obj(x).cls.name == 'AggregatedProgressCallback']
+            # reporting starts switched off: botocore's request-created handlers switch it on when the body is sent
+            out['part_body_starts_with_progress_reporting_off'] = (B(bh.fields.get('_callbacks_enabled') is False), ['C09'])
             out['part_body_has_its_own_progress_aggregator'] = (B(
                 citems is not None and all(isinstance(x, Ref) for x in citems) and len(aggs) == len(citems)
                 and all(a.oid not in st0.heap for a in aggs)), ['C09'])
@@ -1169,6 +1172,8 @@ def register(R):
         # C09: progress reported in this iteration == bytes read
         from .a_windows import reported
         out['progress_reported_equals_bytes_read'] = (reported(evs) == g1['pos'] - g0['pos'], ['C09'])
+        ipc = [e for e in evs if e.kind == 'call' and e.name.endswith('invoke_progress_callbacks')]
+        out['progress_goes_to_the_transfers_own_callbacks'] = (B(bool(ipc) and all(e.extra['env']['callbacks'] is l1.st.env['callbacks'] for e in ipc)), ['C09'])
         out['at_most_one_io_request_per_chunk'] = (B(len(io) <= 1), ['C02'])
         out['chunk_not_larger_than_io_chunksize'] = (g1['pos'] - g0['pos'] <= to_int_term(l1.st.env['io_chunksize']), ['C11'])
         return out
